@@ -166,6 +166,14 @@ def load_theory_cache(filename, username="master"):
     finally:
         theory.thy = prev_thy
 
+    # The file has changed (or is loaded for the first time): read it again,
+    # including the list of imports recorded by load_metadata.
+    data = load_json_data(filename, username)
+    if cache['imports'] != data['imports']:
+        cache['imports'] = data['imports']
+        check_topological_sort(username)
+    cache['description'] = data['description']
+
     # Load all imported theories
     depend_list = get_import_order(cache['imports'], username)
 
@@ -177,7 +185,6 @@ def load_theory_cache(filename, username="master"):
                     theory.thy.unchecked_extend(item.get_extension())
 
         # Use this theory to parse the content of current theory
-        data = load_json_data(filename, username)
         content = []
         for index, item in enumerate(data['content']):
             item = items.parse_item(item)
